@@ -33,7 +33,8 @@ pub fn parse_ignore(source: &Path, config: &Config) -> Result<Option<Gitignore>>
         // name would block for ever.
         let regular = match gifile.metadata() {
             Ok(meta) => meta.is_file(),
-            Err(e) if e.kind() == ErrorKind::NotFound => false,
+            // A source that is not a directory has no .gitignore either.
+            Err(e) if e.kind() == ErrorKind::NotFound || e.kind() == ErrorKind::NotADirectory => false,
             // Not being able to tell is an error, not "no .gitignore".
             Err(e) => return Err(e.into()),
         };
